@@ -96,6 +96,20 @@ pub fn check_records(file: &FixedFile, lines: &[Vec<u8>], expected: &[usize]) ->
                 return Err(("field".into(), format!("line #{} record {}: {} = {:?}, want {}; line {:?}", k, idx, name, have, r.pid, esc_trunc(line, 300))));
             }
         }
+        if l.addr.is_some() {
+            // words 1..3 zero: ` ut_addr a.b.c.d` from the bytes of word 0; else ` ut_addr_v6 W0:W1:W2:W3` (hex)
+            let a = r.addr;
+            let (name, want) = if a[1] == 0 && a[2] == 0 && a[3] == 0 {
+                let b = a[0].to_le_bytes();
+                ("ut_addr", format!("{}.{}.{}.{}", b[0], b[1], b[2], b[3]))
+            } else {
+                ("ut_addr_v6", format!("{:X}:{:X}:{:X}:{:X}", a[0], a[1], a[2], a[3]))
+            };
+            let have = plain_field(&ls, name);
+            if have.as_deref() != Some(want.as_str()) {
+                return Err(("field".into(), format!("line #{} record {}: {} = {:?}, want {}; line {:?}", k, idx, name, have, want, esc_trunc(line, 400))));
+            }
+        }
         let (sec, usec) = file.tv(idx);
         let want_t = if l.usec.is_some() { format!("{}.{}", sec, usec) } else { format!("{}", sec) };
         let have = plain_field(&ls, l.time_name);
@@ -148,7 +162,7 @@ impl Property for C08 {
         let mut v = vec![];
         for (li, l) in layouts().iter().enumerate() {
             // duplicated time values, one per layout (finding F2 regression)
-            let recs = (0..6).map(|k| FRec { sec: 1_600_000_000 + [0i64, 1, 1, 0, 2, 1][k], usec: 7, null: 0, pid: 100 + k as i32, typ: 6, serial: k as u32, full: 0, stale: 0 }).collect();
+            let recs = (0..6).map(|k| FRec { sec: 1_600_000_000 + [0i64, 1, 1, 0, 2, 1][k], usec: 7, null: 0, pid: 100 + k as i32, typ: 6, serial: k as u32, full: 0, stale: 0, addr: [0; 4] }).collect();
             v.push((format!("dup-times-{}", l.id), Case { file: FixedFile { layout: li, recs }, codec: Codec::Plain, bs: 65536, win: None }));
         }
         v
